@@ -88,9 +88,15 @@ def gen_spec(seed, index, tier):
     rng = core.rng_of(seed, "c13")
     driver = DRIVERS[index % len(DRIVERS)] if rng.random() < 0.7 else rng.choice(DRIVERS)
     need_nac = driver in ("gl_perq",)
+    force_nac = "gonze" if need_nac else None
+    if driver == "ddm" and rng.random() < 0.6:
+        # the derivative kernel has its own NAC branch (Wang form): make sure it meets anisotropic, site-dependent Born tensors
+        need_nac, force_nac = True, "wang"
     max_atoms = rng.choice([16, 24, 36, 36, 48])
-    w = World.generate(seed, max_atoms=max_atoms, force_nac=("gonze" if need_nac else None),
+    w = World.generate(seed, max_atoms=max_atoms, force_nac=force_nac,
                        names=[n for n in CRYSTALS if (not need_nac or CRYSTALS[n].get("nac"))])
+    if driver == "ddm" and force_nac == "wang":
+        w.spec["born_aniso"] = 0.4
     nq = rng.randint(1, 9)
     args = dict(
         qpoints=qpoint_pool(rng, nq),
@@ -99,7 +105,7 @@ def gen_spec(seed, index, tier):
         mesh_symmetry=rng.random() < 0.6,
         gamma_center=rng.random() < 0.5,
         temperatures=sorted(round(rng.uniform(10, 1000), 2) for _ in range(rng.randint(1, 8))),
-        compact=rng.random() < 0.5,
+        compact=(rng.random() < 0.5) if driver != "ddm" else (rng.random() < 0.25),
         dense_svecs=rng.random() < 0.7,
         freq_pitch=rng.choice([None, 0.25, 0.5]),
         thm_value=rng.choice(["I", "J"]),
